@@ -6,7 +6,7 @@ use crate::gen::{chance, pick};
 use crate::model::*;
 use arbitrary::Unstructured;
 
-pub const CATALOGUE: [&str; 48] = [
+pub const CATALOGUE: [&str; 49] = [
     "tag-negative",
     "tag-2^31",
     "tag-huge",
@@ -55,6 +55,7 @@ pub const CATALOGUE: [&str; 48] = [
     "containment-cycle",
     "doc-on-parameter",
     "implicit-enumerator-overflow",
+    "name-definition-vs-module",
 ];
 
 fn structs_mut(p: &mut Program) -> Vec<&mut StructM> {
@@ -573,6 +574,35 @@ pub fn inject(p: &mut Program, which: usize, u: &mut Unstructured) -> bool {
             } else {
                 add_def(p, iface(&derived, vec![&base], vec![op("ping")]))
             }
+        }
+        "name-definition-vs-module" => {
+            // `module P::Q` in one new file, a definition `Q` in `module P` in another (either order)
+            let pm = unique_def_name(p, "InjP");
+            let q = unique_def_name(p, "InjQ");
+            let inner = FileM {
+                path: String::new(),
+                file_attrs: vec![],
+                module: Some(ModuleM { attrs: vec![], path: vec![pm.clone(), q.clone()] }),
+                defs: vec![DefM::Custom(CustomM { pre: Prelude::default(), name: "Inner".into() })],
+            };
+            let def = match pick(u, 4) {
+                0 => fresh_struct(&q, vec![], false),
+                1 => DefM::Custom(CustomM { pre: Prelude::default(), name: q.clone() }),
+                2 => DefM::Alias(AliasM { pre: Prelude::default(), name: q.clone(), ty: TypeM::prim("bool") }),
+                _ => DefM::Interface(InterfaceM { pre: Prelude::default(), name: q.clone(), bases: vec![], ops: vec![] }),
+            };
+            let outer = FileM {
+                path: String::new(),
+                file_attrs: vec![],
+                module: Some(ModuleM { attrs: vec![], path: vec![pm] }),
+                defs: vec![def],
+            };
+            let pair = if chance(u, 128) { [inner, outer] } else { [outer, inner] };
+            for mut f in pair {
+                f.path = format!("string-{}", p.files.len());
+                p.files.push(f);
+            }
+            true
         }
         "alias-of-optional" => {
             let n = unique_def_name(p, "Inj");
